@@ -150,6 +150,13 @@ func runDescribe(e *Env) {
 					send(bad)
 				case 0:
 					send(mkConnStateRes(1, 0))
+					if discover {
+						// a search response that ends behind its endpoint, or behind its device block
+						body := append(mkHPAI(1, [4]byte{10, 0, 1, 7}, 3671), mkDeviceDIB("cut")...)
+						bad := mkFrame(svcSearchRes, body[:[]int{8, len(body)}[e.Choose("wl.cutsearch", 2)]])
+						illFormed[string(bad)] = true
+						send(bad)
+					}
 				case 1:
 					bad := mkFrame(svcDescrRes, []byte{0x36, 1, 2, 3}) // truncated description
 					illFormed[string(bad)] = true
